@@ -260,3 +260,59 @@ def phi_for_cholesky(c, br):
     'one step reaches the optimum' for batched variational distributions"""
     from contracts import C19_backward as c19
     return c19.phi_for_cholesky(c, br)
+
+
+@case("C15", clause="objective.multitask_minibatch_size", name="objective_multitask", expand=lambda ix: [(cl,) for cl in CLS], replay=lambda *a: replay_objective_multitask(*a),
+      functions=[f"{AM}.forward"])
+def objective_multitask(c, clsname):
+    """a multitask q(f) has event shape (B, T): the likelihood term is still averaged over the B minibatch POINTS (not over the T tasks):
+    value = (1/B) sum_i l_i - (beta/N) KL  with l_i the per-point terms of the likelihood's contract"""
+    from contracts.dist_spec import make_mtmvn
+    it, ctx = c.it, c.ctx
+    mll, lik, _qf, _y, ell, kl, priors, losses, B, N, beta = build(c, clsname, 0, 0, True, False)
+    T = c.size("T")
+    qf = make_mtmvn(c, "qf_mt", [], B, T.t, True)
+    y = sym_tensor("y_mt", [B, T.t])
+    res = it.call(ctx, c.getattr(mll, "forward"), [qf, y], {})
+    c.prove("objective_mt.likelihood_term_once_on_the_multitask_arguments", z3.BoolVal(len(lik.calls) == 1 and lik.calls[0][1][0] is y and lik.calls[0][1][1] is qf))
+    ll = mk_sum(lambda i: ell.at([i]), B) / z3.ToReal(B)
+    c.prove("objective_mt.value_divides_by_the_number_of_points", res.at([]) == ll - kl.at([]) * beta / N)
+
+
+def replay_objective_multitask(model, params, clause, info):
+    """real multitask SVGP (independent multitask strategy, 3 tasks, 5 points): objective vs (1/B) sum of the likelihood's own per-point terms - beta KL / N"""
+    import torch
+    import gpytorch
+    (clsname,) = params
+    torch.manual_seed(0)
+    T, m, B, N = 3, 4, 5, 40
+    X, Y = torch.rand(B, 1, dtype=torch.double), torch.randn(B, T, dtype=torch.double)
+
+    class G(gpytorch.models.ApproximateGP):
+        def __init__(self):
+            Z = torch.rand(T, m, 1, dtype=torch.double)
+            vd = gpytorch.variational.CholeskyVariationalDistribution(m, batch_shape=torch.Size([T]))
+            vs = gpytorch.variational.IndependentMultitaskVariationalStrategy(gpytorch.variational.VariationalStrategy(self, Z, vd, learn_inducing_locations=True), num_tasks=T)
+            super().__init__(vs)
+            self.mean_module = gpytorch.means.ConstantMean(batch_shape=torch.Size([T]))
+            self.covar_module = gpytorch.kernels.RBFKernel(batch_shape=torch.Size([T]))
+
+        def forward(self, x):
+            return gpytorch.distributions.MultivariateNormal(self.mean_module(x), self.covar_module(x))
+
+    g = G().double()
+    lik = gpytorch.likelihoods.MultitaskGaussianLikelihood(num_tasks=T).double()
+    cls = {"VariationalELBO": gpytorch.mlls.VariationalELBO, "PredictiveLogLikelihood": gpytorch.mlls.PredictiveLogLikelihood}.get(clsname)
+    if cls is None:
+        cls = getattr(gpytorch.mlls, clsname)
+    obj = cls(lik, g, num_data=N, beta=0.7)
+    g.train()
+    lik.train()
+    with torch.no_grad():
+        qf = g(X)
+        got = obj(qf, Y)
+        term = lik.expected_log_prob(Y, qf) if clsname == "VariationalELBO" else lik.log_marginal(Y, qf)
+        want = term.sum() / B - 0.7 * g.variational_strategy.kl_divergence() / N
+    bad = not torch.allclose(got, want, atol=1e-9)
+    return {"violates": bool(bad), "detail": f"{clsname} on a {T}-task q(f) over {B} points: {got.item():.6f} vs (1/B) sum l_i - beta KL / N = {want.item():.6f}",
+            "entry": {"module": "contracts.C15_objectives", "function": "replay_objective_multitask", "args": [model, list(params), clause, info]}}
